@@ -12,7 +12,7 @@ from .types import (TInt, TReal, TBool, TStr, TNone, TList, TTuple, TDict, TDefa
 from . import heap as H
 from . import contract as C
 from . import extract
-from .engine import (NodesOf, NodeView, EdgesOf, EdgeView, AttrRec, ModuleRef, FuncRef, SeqView, State,
+from .engine import (NodesOf, NodeView, EdgesOf, EdgeView, AttrRec, ContractionView, ModuleRef, FuncRef, SeqView, State,
                      exc_canon)
 
 
@@ -178,7 +178,21 @@ def get_item(eng, st, base, key, node, spec=False):
             raise Unsupported('node attribute with a non-constant name')
         has, val = _node_attr_val(eng, st, base, name)
         eng.safety(st, has, node, 'attr-' + name, spec)
+        if name == 'contraction':
+            return ContractionView(val)
         return val
+    if isinstance(base, ContractionView):
+        if base.removed is None:
+            return ContractionView(base.val, lift(key))
+        name = _const_str(key)
+        pos = {'fragid': 0, 'mapping': 1}.get(name)
+        if pos is None:
+            raise Unsupported('contraction entry %r is not modelled' % name)
+        dty = base.val.ty.elems[pos]
+        d = Val(dty, base.val.ty.field(base.val.t, pos))
+        v, safe = ops.dict_get(d, base.removed)
+        eng.safety(st, safe, node, 'contraction-' + name, spec)
+        return v
     if isinstance(base, EdgesOf):
         u, v = unpack(eng, st, key, 2, node)
         eng.safety(st, st.heap.has_edge(base.g.t, u.t, v.t), node, 'edge-exists', spec)
@@ -1411,6 +1425,39 @@ def node_attr_dict(eng, st, g, name):
     return d
 
 
+_EAD_FUNCS = {}
+
+
+def edge_attr_dict(eng, st, g, name):
+    """networkx.get_edge_attributes(G, name) as a function of the graph's edge slices: keys are the edges in edge-list
+    orientation that carry the attribute."""
+    suffix, ty = H.EDGE_SCHEMA[name]
+    dty = TDict(H.T_EDGE, ty)
+    heap = st.heap
+    el, hase, eidx = heap.edges(g.t), heap.get('hase')[g.t], heap.get('eidx')[g.t]
+    eh, ev = heap.get('eh:' + suffix)[g.t], heap.get('ev:' + suffix)[g.t]
+    if suffix not in _EAD_FUNCS:
+        _EAD_FUNCS[suffix] = z3.Function('edge_attrs_' + suffix, el.sort(), hase.sort(), eidx.sort(), eh.sort(), ev.sort(), dty.sort())
+    d = Val(dty, _EAD_FUNCS[suffix](el, hase, eidx, eh, ev))
+    u, v = z3.Int(fresh_name('eu')), z3.Int(fresh_name('ev'))
+    key = H.T_EDGE.mk(u, v)
+    earr = H.T_EDGELIST.arr(el)
+    st.assume(*ops.dict_wf(d))
+    st.assume(z3.ForAll([u, v], dty.has(d.t)[key] == z3.And(hase[u][v], eh[u][v], earr[eidx[u][v]] == key),
+                        patterns=[dty.has(d.t)[key]]),
+              z3.ForAll([u, v], z3.Implies(dty.has(d.t)[key], dty.valmap(d.t)[key] == ev[u][v]), patterns=[dty.valmap(d.t)[key]]))
+    # every key is a pair (datatype with one constructor): the quantification over (u, v) above covers all keys
+    return d
+
+
+def m_get_edge_attributes(eng, st, node, spec=False, old=None):
+    g = eng.ev(node.args[0], st, spec, old)
+    name = _const_str(eng.ev(node.args[1], st, spec, old))
+    if name is None:
+        raise Unsupported('get_edge_attributes with a non-constant name')
+    return edge_attr_dict(eng, st, g, name)
+
+
 def m_deepcopy(eng, st, node):
     v = eng.ev(node.args[0], st)
     if isinstance(v, NodeView):
@@ -1533,6 +1580,7 @@ CANON_MODELS = {
     'numpy.array': m_np_array,
     'networkx.Graph': m_nx_graph,
     'networkx.get_node_attributes': m_get_node_attributes,
+    'networkx.get_edge_attributes': m_get_edge_attributes,
     'copy.deepcopy': m_deepcopy,
     'numpy.zeros': m_np_zeros,
 }
